@@ -1420,28 +1420,27 @@ func (s *Serf) handleQueryResponse(resp *messageQueryResponse) {
 		return
 	}
 
-	// Process each type of response
+	// Process each type of response. Duplicates are detected by the query
+	// itself, under its lock, since replies can arrive concurrently.
 	if resp.Ack() {
-		// Exit early if this is a duplicate ack
-		if _, ok := query.acks[resp.From]; ok {
+		duplicate, err := query.sendAck(resp)
+		if duplicate {
 			metrics.IncrCounterWithLabels([]string{"serf", "query_duplicate_acks"}, 1, s.metricLabels)
 			return
 		}
 
 		metrics.IncrCounterWithLabels([]string{"serf", "query_acks"}, 1, s.metricLabels)
-		err := query.sendAck(resp)
 		if err != nil {
 			s.logger.Printf("[WARN] %v", err)
 		}
 	} else {
-		// Exit early if this is a duplicate response
-		if _, ok := query.responses[resp.From]; ok {
+		duplicate, err := query.sendResponse(NodeResponse{From: resp.From, Payload: resp.Payload})
+		if duplicate {
 			metrics.IncrCounterWithLabels([]string{"serf", "query_duplicate_responses"}, 1, s.metricLabels)
 			return
 		}
 
 		metrics.IncrCounterWithLabels([]string{"serf", "query_responses"}, 1, s.metricLabels)
-		err := query.sendResponse(NodeResponse{From: resp.From, Payload: resp.Payload})
 		if err != nil {
 			s.logger.Printf("[WARN] %v", err)
 		}
